@@ -370,6 +370,9 @@ pub static BG_WAITS: std::sync::atomic::AtomicUsize = std::sync::atomic::AtomicU
 
 struct World {
     act_dir: Option<PathBuf>,
+    /// where the archives are reached by the appender, when that is not `dir` itself: a symbolic link to it (its
+    /// target can be moved away: Rolling.tla, the obstacle "nodir")
+    link: Option<PathBuf>,
     dir: PathBuf,
     mat: Mat,
     base: i64,
@@ -382,14 +385,17 @@ impl World {
         self.act_dir.as_ref().unwrap_or(&self.dir).join("active.log")
     }
     fn arch(&self, i: i64) -> PathBuf {
-        PathBuf::from(self.pattern().replace("{}", &i.to_string()))
+        PathBuf::from(self.pattern_at(&self.dir).replace("{}", &i.to_string()))
     }
     fn pattern(&self) -> String {
+        self.pattern_at(self.link.as_ref().unwrap_or(&self.dir))
+    }
+    fn pattern_at(&self, d: &Path) -> String {
         let leaf = if self.mat.gz { "arch.{}.log.gz" } else { "arch.{}.log" };
         if self.mat.dir_pattern {
-            self.dir.join("w{}").join(leaf.replace(".{}", "")).to_string_lossy().to_string()
+            d.join("w{}").join(leaf.replace(".{}", "")).to_string_lossy().to_string()
         } else {
-            self.dir.join(leaf).to_string_lossy().to_string()
+            d.join(leaf).to_string_lossy().to_string()
         }
     }
     /// background rotation (harness feature `bgrot`): roll() renames the active file to `active.<seconds>` and a
@@ -555,8 +561,17 @@ pub fn replay_case(case: &Value, mat: Mat) -> Option<Value> {
     } else {
         None
     };
-    let mut world = World { act_dir: other.as_ref().map(|s| s.path().to_path_buf()), dir: scratch.path().join("d0"), mat, base, count, window };
+    let nodir = case["ops"].as_array().unwrap().iter().any(|o| o["op"] == "obstruct" && o["kind"] == "nodir");
+    if nodir && !mat.cross_mount {
+        return None; // (one materialisation reaches its archives through a symbolic link)
+    }
+    let mut world = World { act_dir: other.as_ref().map(|s| s.path().to_path_buf()), link: None, dir: scratch.path().join("d0"), mat, base, count, window };
     fs::create_dir_all(&world.dir).unwrap();
+    if nodir {
+        let l = scratch.path().join("archives-link");
+        std::os::unix::fs::symlink(&world.dir, &l).unwrap();
+        world.link = Some(l);
+    }
     let mut generation = 0;
     install_hook();
     HOOK.with(|h| *h.borrow_mut() = HookState::default());
@@ -722,6 +737,17 @@ pub fn replay_case(case: &Value, mat: Mat) -> Option<Value> {
             "arm" => {
                 let point = if op["k"] == "shift" { "rotate.shift" } else { "rotate.final" };
                 HOOK.with(|h| h.borrow_mut().fault = Some((point.to_string(), op["i"].as_u64().unwrap())));
+            }
+            "obstruct" if op["kind"] == "nodir" => {
+                // the target of the link goes away (the archives go with it, untouched)
+                let away = scratch.path().join("d0.away");
+                fs::rename(&world.dir, &away).unwrap();
+                world.dir = away;
+            }
+            "unobstruct" if op["kind"] == "nodir" => {
+                let back = scratch.path().join("d0");
+                fs::rename(&world.dir, &back).unwrap();
+                world.dir = back;
             }
             "obstruct" => {
                 let d = world.arch(op["i"].as_i64().unwrap());
